@@ -219,6 +219,53 @@ func genPrint(repo string) (string, error) {
 	sb.WriteString("(* protoprint.go contextRefName: the guard `len(refPath) <op> <n>` that stops the stripping *)\n")
 	fmt.Fprintf(&sb, "Definition strip_guard : string := %s.\n", gen.CoqString(guard))
 
+	// statementKeywords: the words a relative type name must not start with (fix 5e02f98)
+	var kws []string
+	for _, d := range pp.Decls {
+		gd, ok := d.(*ast.GenDecl)
+		if !ok || gd.Tok != token.VAR {
+			continue
+		}
+		for _, sp := range gd.Specs {
+			vs, ok := sp.(*ast.ValueSpec)
+			if !ok || len(vs.Names) != 1 || vs.Names[0].Name != "statementKeywords" || len(vs.Values) != 1 {
+				continue
+			}
+			cl, ok := vs.Values[0].(*ast.CompositeLit)
+			if !ok {
+				continue
+			}
+			for _, el := range cl.Elts {
+				kv, ok := el.(*ast.KeyValueExpr)
+				if !ok {
+					continue
+				}
+				if bl, ok := kv.Key.(*ast.BasicLit); ok && bl.Kind == token.STRING {
+					if v, ok := kv.Value.(*ast.Ident); ok && v.Name == "true" {
+						k, _ := strconv.Unquote(bl.Value)
+						kws = append(kws, k)
+					}
+				}
+			}
+		}
+	}
+	sort.Strings(kws)
+	kwTerms := make([]string, len(kws))
+	for i, k := range kws {
+		kwTerms[i] = gen.NList([]byte(k))
+	}
+	sb.WriteString("(* protoprint.go statementKeywords (sorted): a relative type name starting with one of them is printed .full.Name *)\n")
+	fmt.Fprintf(&sb, "Definition statement_keywords : list (list N) := [%s].\n", strings.Join(kwTerms, "; "))
+	// the two uses in contextRefName
+	kwUses := 0
+	ast.Inspect(crn.Body, func(n ast.Node) bool {
+		if ix, ok := n.(*ast.IndexExpr); ok && typeName(ix.X) == "statementKeywords" {
+			kwUses++
+		}
+		return true
+	})
+	fmt.Fprintf(&sb, "Definition statement_keyword_checks : N := %d.\n", kwUses)
+
 	// OptionsFor: option field number per parent kind, against descriptor.proto
 	_, bld, err := gen.ParseFile(filepath.Join(repo, "internal/j5s/protoprint/optionreflect/builder.go"))
 	if err != nil {
